@@ -216,6 +216,9 @@ class Chip(object):
         self.sysram = Heap(0xe5000100, 0x6000)
         self.router = [None] * N_RTR
         self.rtr_blocks = []               # [first, count, app]
+        # SC&MP keeps entry 0 (an allocation result of 0 means failure); a
+        # chip may nevertheless *report* all 1024 entries free
+        self.rtr_entry0_reserved = True
         self.iptags = {}
         self.tags = {}                     # (app, tag) -> pointer
         self.leds = {}
@@ -357,7 +360,7 @@ class Chip(object):
         best = 0
         run = 0
         used = self._rtr_used()
-        for i in range(1, N_RTR):
+        for i in range(0, N_RTR):
             if used[i]:
                 run = 0
             else:
@@ -367,7 +370,7 @@ class Chip(object):
 
     def _rtr_used(self):
         used = [False] * N_RTR
-        used[0] = True
+        used[0] = self.rtr_entry0_reserved
         for first, count, _app in self.rtr_blocks:
             for i in range(first, first + count):
                 used[i] = True
